@@ -242,8 +242,12 @@ func (j *judge) judgeTx(tx *TxRec, claims map[string][]string) {
 					j.add("C02", "attr", "", "callback %s inserted by %s [%s], not by a registration request", c.Key, tx.ReqId, tx.CmdString())
 				} else if req.Req.Kind == t_api.CreateCallback && (c.After.S("promise_id") != req.Req.CreateCallback.PromiseId || c.After.S("root_promise_id") != req.Req.CreateCallback.RootPromiseId || c.After.S("recv") != string(req.Req.CreateCallback.Recv) || c.After.I("timeout") != req.Req.CreateCallback.Timeout) {
 					j.add("C02", "attr", "", "callback %s stored with other fields than requested by %s: %s", c.Key, req, core.RowString(c.After))
+					// C05-J5: "leaves a registration that will produce such a task" — the task is made from the stored receiver,
+					// message and deadline; a registration stored with others than the request's wakes up somebody else, or nobody
+					j.add("C05", "J5", "", "registration %s left by %s is not the one it asked for (promise, root, receiver, deadline): %s", c.Key, req, core.RowString(c.After))
 				} else if req.Req.Kind == t_api.CreateSubscription && (c.After.S("promise_id") != req.Req.CreateSubscription.PromiseId || c.After.S("recv") != string(req.Req.CreateSubscription.Recv) || c.After.I("timeout") != req.Req.CreateSubscription.Timeout) {
 					j.add("C02", "attr", "", "subscription %s stored with other fields than requested by %s: %s", c.Key, req, core.RowString(c.After))
+					j.add("C05", "J5", "", "subscription %s left by %s is not the one it asked for (promise, receiver, deadline): %s", c.Key, req, core.RowString(c.After))
 				}
 			case c.After == nil:
 				if !completedHere[c.Before.S("promise_id")] {
